@@ -43,6 +43,7 @@ type ctlRW struct {
 	failAt int // 1-based index of the mutating call that fails (0 = none)
 	short  bool
 	fired  bool
+	failKind string // the kind of the call that was failed
 }
 
 func (c *ctlRW) ReadAt(p []byte, off int64) (int, error) { return c.inner.ReadAt(p, off) }
@@ -58,6 +59,7 @@ func (c *ctlRW) hit() bool {
 
 func (c *ctlRW) Seek(off int64, whence int) (int64, error) {
 	if c.hit() {
+		c.failKind = "seek"
 		return 0, errInjected
 	}
 	if c.rec {
@@ -68,6 +70,7 @@ func (c *ctlRW) Seek(off int64, whence int) (int64, error) {
 
 func (c *ctlRW) Write(p []byte) (int, error) {
 	if c.hit() {
+		c.failKind = "write"
 		if c.short && len(p) >= 2 {
 			k := len(p) / 2
 			if c.rec {
@@ -86,6 +89,7 @@ func (c *ctlRW) Write(p []byte) (int, error) {
 
 func (c *ctlRW) Truncate(n int64) error {
 	if c.hit() {
+		c.failKind = "trunc"
 		return errInjected
 	}
 	if c.rec {
@@ -505,4 +509,37 @@ func targetsOf(op *Op, b0 []byte) map[uint32]bool {
 
 func le32(b []byte) int32 {
 	return int32(uint32(b[0]) | uint32(b[1])<<8 | uint32(b[2])<<16 | uint32(b[3])<<24)
+}
+
+// faultPoint names, in the model's terms, where an injected fault fell: m whole calls took effect
+// (consecutive writes taken together, zero-length writes not counted), then j bytes of call m.
+func faultPoint(done []ioEv, failKind string) (m, j int) {
+	merged := mergeWrites(done)
+	if n := len(merged); failKind == "write" && n > 0 && merged[n-1].Kind == "write" {
+		// the failed Write continues (or is the rest of) the write the recording ends with
+		return n - 1, len(merged[n-1].P)
+	}
+	return len(merged), 0
+}
+
+// dryRunCalls: the mutating calls op issues, found by running it on a scratch copy of the image.
+func (e *Env) dryRunCalls(op *Op) []ioEv {
+	dir, err := os.MkdirTemp(e.dir, "dry")
+	if err != nil {
+		return nil
+	}
+	defer os.RemoveAll(dir)
+	p := filepath.Join(dir, "pre.sif")
+	if err := os.WriteFile(p, e.storeBytes(), 0o644); err != nil {
+		return nil
+	}
+	e2 := &Env{dir: dir, faultCtl: true}
+	defer e2.Close()
+	if lo := e2.applyCore(&Op{Kind: "load", Backend: e.backend, Path: p}); len(lo) == 0 || lo[0] != "res ok" || e2.ctl == nil {
+		return nil
+	}
+	cp := *op
+	e2.ctl.arm(0, false)
+	e2.applyCore(&cp)
+	return e2.ctl.disarm()
 }
